@@ -5,8 +5,9 @@ class C26(Spec):
     prop = "C26"
     drv = "drv_c25"          # same op language and driver as C25 (the log is part of the chain model)
     harness = "h_c26"
-    lean_deps = ("C25",)
-    required_theorems = ("C26.seq_consecutive", "C26.seq_no_reuse", "C26.replay_eq_best", "C26.replay_eq_chain")
+    lean_deps = ("C25", "C29")
+    required_theorems = ("C26.seq_consecutive", "C26.seq_no_reuse", "C26.replay_eq_best", "C26.replay_eq_chain",
+                         "C26.seq_consecutive_events", "C26.seq_no_reuse_events", "C26.replay_eq_chain_restart")
     partial = ()
     refuted = ()
     quick_timeout = 600
@@ -17,10 +18,12 @@ class C26(Spec):
                   "with sequence recording on (GetBlockSequences / LoadBlockLastSequence / GetSequenceByHash compared with "
                   "the model after every delivery), and the predicate (consecutive numbering, replay = height->hash, "
                   "hash->seq points at the latest add record) evaluated on the implementation.")
-    level_note = ("same assumptions as C25 (valid blocks, cache limits not reached, no restart); parachain main-sequence "
-                  "records are not modelled.")
+    level_note = ("numbering/append-only: any blocks, any events incl. restarts, finaliser requests, orphan evictions; "
+                  "replay = height index across restarts: deliveries from a block tree (uses the lock-step relation of "
+                  "C29 between a restarted and a clean node), finalised height 0. Restart tied on the real node (close + "
+                  "reopen on the same directory). Parachain main-sequence records are not modelled.")
     assumptions = (
-        "delivered blocks execute successfully; cache/orphan limits not reached; no restart",
+        "delivered blocks execute successfully; chains shorter than InitBlockNum (10240)",
         "LevelDB batch atomicity: the sequence record is written in the same batch as the block",
         "parachain mode (main-chain sequence records) is not modelled",
     )
